@@ -315,6 +315,12 @@ func runC08(r *core.Run) {
 			c08BFS(r, fanouts[i-len(fanouts)], xu)
 		}
 	})
+	// names that are byte strings rather than text: Latin-1 bytes, two names
+	// differing only in a byte that is not valid UTF-8, a truncated multi-byte
+	// sequences, U+FFFD itself (what a lossy conversion would produce)
+	bu := []string{"caf\xe9.txt", "caf\xe8.txt", "\xff", "\xe2\x82", "caf\xef\xbf\xbd.txt", "\xc3"}
+	core.ParallelFor(len(fanouts), workers, func(i int) { c08BFS(r, fanouts[i], bu) })
+	r.Set("byte_string_universe", fmt.Sprintf("%q", bu))
 	r.Set("extreme_universe", xu)
 	sort.SliceStable(bfsStats, func(i, j int) bool { return bfsStats[i]["fanout"].(int) < bfsStats[j]["fanout"].(int) })
 	r.Set("bfs_per_fanout", bfsStats)
